@@ -40,7 +40,9 @@ PROPS = {
                 "segment index over > 1 loop + far from epoch): sorted sweep of instants, every ms within +-4 (quick) / +-50 (thorough) of both transitions, "
                 "against the 425->200->410 automaton with exact rational transition instants; quick uses a covering subset of the configuration product",
         "assumptions": ["for audio the availability instant may lie anywhere between the end of the reference video segment and the end of the audio segment (< 1 frame)",
-                        "the 425 body may state floor or ceil of the remaining milliseconds"],
+                        "the 425 body may state floor or ceil of the remaining milliseconds",
+                        "segment numbers are 32 bits (mfhd sequence_number): the automaton is walked for numbers below 2^32; a number above is no segment (404) and in particular no alias of its low 32 bits",
+                        "before availabilityStartTime the 425 body may count down to the stream start or to the segment's own availability"],
     },
     "C03": {
         "parts": [{"pkg": "livesim", "test": "TestVerifC03", "gen": True}],
